@@ -2,6 +2,7 @@ import Unimock.Driver.Universe
 import Unimock.Model.Interleave
 import Unimock.Model.ValueChain
 import Unimock.Model.Codegen.Method
+import Unimock.Model.Output
 /-!
 # Line protocol: parse scenarios, run them on the model, print the canonical trace
 
@@ -444,5 +445,94 @@ def runShape (line : String) : Array String := Id.run do
     for m in ms.filter (!·.hasDefault) do
       for l in renderDelegator m do out := out.push l
   return out
+
+end Unimock.Driver
+
+namespace Unimock.Driver
+open Unimock.Output
+
+/-! ## output-kind cases (`outcase` lines): run the Output model -/
+
+mutual
+partial def parseVal (cs : List Char) : Option (Output.Val × List Char) :=
+  match cs with
+  | 'L' :: rest =>
+    let ds := rest.takeWhile Char.isDigit
+    some (.leaf ((String.ofList ds).toNat?.getD 0), rest.dropWhile Char.isDigit)
+  | 'N' :: rest => some (.none, rest)
+  | 'P' :: rest => some (.pending, rest)
+  | 'S' :: '(' :: rest => (parseVal rest).bind fun (v, r) => match r with | ')' :: r => some (.some v, r) | _ => none
+  | 'O' :: '(' :: rest => (parseVal rest).bind fun (v, r) => match r with | ')' :: r => some (.ok v, r) | _ => none
+  | 'E' :: '(' :: rest => (parseVal rest).bind fun (v, r) => match r with | ')' :: r => some (.err v, r) | _ => none
+  | 'R' :: '(' :: rest => (parseVal rest).bind fun (v, r) => match r with | ')' :: r => some (.ready v, r) | _ => none
+  | 'V' :: '[' :: rest => (parseValList rest).map fun (vs, r) => (.vec vs, r)
+  | 'T' :: '[' :: rest => (parseValList rest).map fun (vs, r) => (.tup vs, r)
+  | _ => none
+partial def parseValList (cs : List Char) : Option (Output.ValList × List Char) :=
+  match cs with
+  | ']' :: rest => some (.nil, rest)
+  | ',' :: rest => parseValList rest
+  | _ => (parseVal cs).bind fun (v, r) => (parseValList r).map fun (vs, r2) => (.cons v vs, r2)
+end
+
+mutual
+partial def parseKind (cs : List Char) : Option (Output.Kind × List Char) :=
+  let pre (p : String) : Option (List Char) := if (String.ofList cs).startsWith p then some (cs.drop p.length) else none
+  if let some r := pre "own" then some (.owning, r)
+  else if let some r := pre "lend" then some (.lending, r)
+  else if let some r := pre "sref" then some (.staticRef, r)
+  else if let some r := pre "shopt" then some (.shallowOpt, r)
+  else if let some r := pre "shres" then some (.shallowRes, r)
+  else if let some r := pre "shvec" then some (.shallowVec, r)
+  else if let some r := pre "dopt(" then (parseKind r).bind fun (k, r) => match r with | ')' :: r => some (.deepOpt k, r) | _ => none
+  else if let some r := pre "dvec(" then (parseKind r).bind fun (k, r) => match r with | ')' :: r => some (.deepVec k, r) | _ => none
+  else if let some r := pre "dpoll(" then (parseKind r).bind fun (k, r) => match r with | ')' :: r => some (.deepPoll k, r) | _ => none
+  else if let some r := pre "dres(" then
+    (parseKind r).bind fun (t, r) => match r with
+      | ',' :: r => (parseKind r).bind fun (e, r) => match r with | ')' :: r => some (.deepRes t e, r) | _ => none
+      | _ => none
+  else if let some r := pre "dtup[" then (parseKindList r).map fun (ks, r) => (.deepTup ks, r)
+  else none
+partial def parseKindList (cs : List Char) : Option (Output.KindList × List Char) :=
+  match cs with
+  | ']' :: rest => some (.nil, rest)
+  | ',' :: rest => parseKindList rest
+  | _ => (parseKind cs).bind fun (k, r) => (parseKindList r).map fun (ks, r2) => (.cons k ks, r2)
+end
+
+mutual
+partial def showVal : Output.Val → String
+  | .leaf n => s!"L{n}"
+  | .none => "N"
+  | .pending => "P"
+  | .some v => s!"S({showVal v})"
+  | .ok v => s!"O({showVal v})"
+  | .err v => s!"E({showVal v})"
+  | .ready v => s!"R({showVal v})"
+  | .vec vs => s!"V[{showValList vs}]"
+  | .tup vs => s!"T[{showValList vs}]"
+partial def showValList : Output.ValList → String
+  | .nil => ""
+  | .cons v .nil => showVal v
+  | .cons v vs => showVal v ++ "," ++ showValList vs
+end
+
+/-- `outcase <id> once=<0|1> kind=<k> val=<v> calls=<n>` -/
+def runOutCase (toks : List String) : String :=
+  let once := kvNat toks "once" == 1
+  match parseKind ((kv toks "kind").getD "").toList, parseVal ((kv toks "val").getD "").toList with
+  | some (k, _), some (v, _) =>
+    match intoReturn once k v with
+    | none => "ill-typed"
+    | some s =>
+      let n := kvNat toks "calls" 3
+      let rec go (n : Nat) (s : Output.Stored) (acc : List String) : List String :=
+        match n with
+        | 0 => acc.reverse
+        | n+1 =>
+          let r := output s
+          go n r.2 ((match r.1 with | some v => showVal v | none => "!CannotReturnValueMoreThanOnce") :: acc)
+      " ".intercalate (go n s [])
+  | _, _ => "parse-error"
 
 end Unimock.Driver
